@@ -212,16 +212,20 @@ def run_model(ops):
         e = entry.get(c)
         return e is not None and e[0] == 'n' and not e[2]
 
+    ambiguous = set()
+
     def promote(t, cs):
         if counts(t, False):
             return
         if pending(t):
             entry[t][2] = True
+            ambiguous.discard(t)
             return
         if cs:
             for k in MRO[t][1:]:
                 if pending(k):
                     entry[k][2] = True
+                    ambiguous.discard(k)
                     return
 
     def pattern(t):
@@ -236,12 +240,19 @@ def run_model(ops):
         tag = 'P%d' % i
         key = None
         if kind == 'reg':
+            ambiguous.discard(c)
             entry[c] = ['d', tag]
             exp.append(None)
         elif kind == 'name':
             e = entry.get(c)
             if e is not None and e[0] == 'n' and e[2]:
                 flags.add('rereg-name-after-promotion')
+                # The earlier printer of this class sits in the live registry (promoted), the new one is
+                # pending by name.  What is_registered(check_deferred=False) should say now is not fixed by the
+                # statement ("deferred and direct registration being equivalent" leaves no room for the flag):
+                # both answers are accepted until the pending printer is promoted.  (Corrected after triage:
+                # the oracle demanded False; the dispatch itself is still checked strictly.)
+                ambiguous.add(c)
             entry[c] = ['n', tag, False]
             exp.append(None)
         elif kind == 'pred':
@@ -266,7 +277,10 @@ def run_model(ops):
             if not cd and rd:
                 exp.append('ValueError')
             else:
-                if cs:
+                rel = MRO[c] if cs else [c]
+                if not cd and any(k in ambiguous for k in rel) and not any(counts(k, cd) for k in rel):
+                    exp.append('ANY')
+                elif cs:
                     exp.append(any(counts(k, cd) for k in MRO[c]))
                 else:
                     exp.append(counts(c, cd))
@@ -286,6 +300,8 @@ def _matches(op, expected, observed):
         out, rep = observed
         return out == (rep if expected == 'repr' else expected)
     if op[0] == 'isreg':
+        if expected == 'ANY':
+            return isinstance(observed, bool)
         return observed == expected and type(observed) is type(expected)
     return True
 
